@@ -40,3 +40,41 @@ theorem lpd_eq_zero_iff (p : ℕ) (hp : 1 ≤ p) (a b : ι → ℝ) :
     apply Finset.sum_eq_zero
     intro i hi
     rw [h i hi, sub_self, abs_zero, Real.zero_rpow (ne_of_gt hp0)]
+
+/-- the value `lp_dist` computes for p = 'inf' on a non-empty set of rows (the contract's `attained` upper bound = the maximum) -/
+noncomputable def linf (hs : s.Nonempty) (a b : ι → ℝ) : ℝ := s.sup' hs (fun i => |a i - b i|)
+
+theorem linf_symm (hs : s.Nonempty) (a b : ι → ℝ) : linf s hs a b = linf s hs b a := by
+  unfold linf
+  congr 1
+  funext i
+  rw [abs_sub_comm]
+
+theorem linf_triangle (hs : s.Nonempty) (a b c : ι → ℝ) :
+    linf s hs a c ≤ linf s hs a b + linf s hs b c := by
+  unfold linf
+  apply Finset.sup'_le
+  intro i hi
+  have h1 : |a i - b i| ≤ s.sup' hs (fun i => |a i - b i|) := Finset.le_sup' (fun i => |a i - b i|) hi
+  have h2 : |b i - c i| ≤ s.sup' hs (fun i => |b i - c i|) := Finset.le_sup' (fun i => |b i - c i|) hi
+  have h3 : |a i - c i| ≤ |a i - b i| + |b i - c i| := abs_sub_le (a i) (b i) (c i)
+  linarith
+
+theorem linf_eq_zero_iff (hs : s.Nonempty) (a b : ι → ℝ) :
+    linf s hs a b = 0 ↔ ∀ i ∈ s, a i = b i := by
+  unfold linf
+  constructor
+  · intro h i hi
+    have h1 : |a i - b i| ≤ s.sup' hs (fun i => |a i - b i|) := Finset.le_sup' (fun i => |a i - b i|) hi
+    rw [h] at h1
+    have h2 : |a i - b i| = 0 := le_antisymm h1 (abs_nonneg _)
+    rw [abs_eq_zero] at h2
+    linarith
+  · intro h
+    apply le_antisymm
+    · apply Finset.sup'_le
+      intro i hi
+      rw [h i hi, sub_self, abs_zero]
+    · obtain ⟨j, hj⟩ := hs
+      have h1 : |a j - b j| ≤ s.sup' ⟨j, hj⟩ (fun i => |a i - b i|) := Finset.le_sup' (fun i => |a i - b i|) hj
+      exact le_trans (abs_nonneg _) h1
